@@ -8,7 +8,7 @@ class whose copy_from cannot rebuild it, H7 default formatter instance exists.
 import ast
 import importlib
 
-from ..astx import dotted, call_name, walk_no_nested, parent, self_attr, func_params, terminates
+from ..astx import dotted, call_name, walk_no_nested, parent, self_attr, func_params, terminates, resolve_local
 from ..callgraph import CallGraph, diff_entries
 from ..core import norm
 from .. import nodeshape
@@ -685,13 +685,15 @@ def h10_release(ctx, cg):
                     ok, why = True, "each release is guarded by a membership test"
                 g = parent(g)
             # (b) domain is own - snapshot
-            if not ok and loop is not None and isinstance(loop.iter, ast.BinOp) and isinstance(loop.iter.op, ast.Sub) \
-                    and self_attr(loop.iter.right):
-                snap = self_attr(loop.iter.right)
-                own = norm(loop.iter.left)
+            dom = resolve_local(ex.node, loop.iter) if loop is not None else None
+            if not ok and loop is not None and isinstance(dom, ast.BinOp) and isinstance(dom.op, ast.Sub) \
+                    and self_attr(dom.right):
+                snap = self_attr(dom.right)
+                own = norm(dom.left)
                 assigns = [s for s in en.node.body if isinstance(s, (ast.Assign, ast.AnnAssign))
                            and any(self_attr(t) == snap for t in (s.targets if isinstance(s, ast.Assign) else [s.target]))]
                 def is_copy(v):
+                    v = resolve_local(en.node, v)
                     if isinstance(v, ast.Call) and dotted(v.func) in ("set", "frozenset", "list", "tuple", "dict") and len(v.args) == 1:
                         v = v.args[0]
                     elif isinstance(v, ast.Call) and isinstance(v.func, ast.Attribute) and v.func.attr == "copy" and not v.args:
